@@ -398,6 +398,10 @@ func baseSetFEnv(L *LState) int {
 func baseSetMetatable(L *LState) int {
 	// Lua 5.1: only a table's metatable can be changed from Lua (luaL_checktype(L, 1, LUA_TTABLE))
 	L.CheckTable(1)
+	if L.GetTop() < 2 {
+		// Lua 5.1: a missing second argument is not nil (luaL_argcheck(t == LUA_TNIL || t == LUA_TTABLE))
+		L.ArgError(2, "nil or table expected")
+	}
 	L.CheckTypes(2, LTNil, LTTable)
 	obj := L.Get(1)
 	mt := L.Get(2)
